@@ -12,10 +12,11 @@ TARGETS = {
 
 CHECKS = {
     "C19": dict(
+        promote=True,   # thorough bounds cost seconds: used for the quick tier as well
         level="exploration",
         runs=[dict(name="aws", target="h_aws", args=[], quick=["--k", "4"], thorough=["--k", "4"],
                    env={"TZ": "VFT-13"})],   # a non-UTC local zone: a signer that used local time would be seen
-        deadline=dict(quick=100, thorough=600),
+        deadline=dict(quick=150, thorough=600),
         rule=("per variant every combination of input values in which at most K dimensions (key id, secret, region, method, bucket, path, "
               "service, op, body, expiry, clock) deviate from their default; a case is non-trivial when the signer succeeded and the independent "
               "verifier recomputed and matched the signature (distinct signatures are counted)"),
